@@ -11,6 +11,9 @@ pub const MAIN: &str = "main";
 pub const DEP_A: &str = "/// Dependency a.\nstruct Foo {\n    a @ 1 = u8;\n}\n\nenum Bar {\n    A @ 1;\n}\n\nconst N = u32(4);\n\nservice Svc {\n    uuid = 6ac4a2ad-5b0a-4a5e-9a3c-0a1b2c3d4e5f;\n    version = 1;\n\n    fn f @ 1 = Foo;\n}\n";
 pub const DEP_B: &str = "import dep_a;\n\nstruct Foo {\n    b @ 1 = dep_a::Foo;\n}\n\nnewtype Id = u32;\n";
 
+/// a dependency without diagnostics that has every kind of definition a doc link can point into
+pub const DEP_RICH: &str = "//! Rich dependency: every kind of definition.\n\nstruct Config {\n    /// The host.\n    required host @ 1 = string;\n    port @ 2 = u16;\n    rest = fallback;\n}\n\nenum Mode {\n    Fast @ 1;\n    Slow @ 2 = u32;\n    Other = fallback;\n}\n\nnewtype Id = u32;\nnewtype Key = string;\nconst LIMIT = u32(8);\nconst NAME = string(\"rich\");\nconst TAG = uuid(01234567-89ab-cdef-0123-456789abcdef);\n\nservice Backend {\n    uuid = 7d1e5a0c-3b1f-4f0e-9c55-2f3a4b5c6d7e;\n    version = 2;\n\n    fn configure @ 1 {\n        args = struct {\n            cfg @ 1 = Config;\n            more = fallback;\n        }\n        ok = enum {\n            Done @ 1;\n            Unknown = fallback;\n        }\n        err = Mode;\n    }\n\n    fn ping @ 2;\n    fn get @ 3 = Config;\n\n    event changed @ 1 = struct {\n        id @ 1 = Id;\n    }\n    event mode @ 2 = enum {\n        On @ 1;\n    }\n    event tick @ 3 = u32;\n    event bare @ 4;\n\n    fn other_fn = fallback;\n    event other_ev = fallback;\n}\n";
+
 pub type Imports = Vec<(String, Option<String>)>;
 
 pub fn std_imports() -> Imports {
@@ -135,6 +138,14 @@ pub struct Out {
     pub kinds: BTreeMap<String, u64>,
     pub samples: Vec<String>,
     pub distinct: std::collections::HashSet<u64>,
+    /// C17 generator coverage: doc links by `<link form>|<import situation of the target schema>`
+    pub link_matrix: BTreeMap<String, u64>,
+    /// doc-link target paths by `<path form>|<item class>`
+    pub link_paths: BTreeMap<String, u64>,
+    /// generated named references by `<position>|<situation>|<identifier class>`
+    pub ref_matrix: BTreeMap<String, u64>,
+    /// what `LinkResolver::resolve` answered on the links comrak found (measured on the real code)
+    pub link_resolutions: BTreeMap<String, u64>,
 }
 
 impl Out {
